@@ -44,6 +44,12 @@ class RecRng:
     def standard_normal(self, *a, **k):
         return self._rec("standard_normal", *a, **k)
 
+    def __getattr__(self, name):
+        # any other method of the generator: forwarded and recorded under its own name
+        if name.startswith("_"):
+            raise AttributeError(name)
+        return lambda *a, **k: self._rec(name, *a, **k)
+
 
 def det_fraction(m):
     m = [[Fraction(float(v)) for v in row] for row in m]
@@ -163,10 +169,15 @@ def generate_case(rnd, D, k):
         obj = D.Laplace(mu.copy(), b.copy())
         s = obj.generate(repeat, rng=rng)
         if rng.calls and rng.calls[0][0] == "laplace":
-            kw = rng.calls[0][2]
-            if not (numpy.array_equal(numpy.asarray(kw.get("loc")), mu) and numpy.array_equal(numpy.asarray(kw.get("scale")), b)):
-                out.append(("generate-parameters", f"Laplace.generate draws laplace(loc={kw.get('loc')}, scale={kw.get('scale')}) for means {col(mu)}, dispersions {col(b)}"))
-            want = rng.calls[0][3]
+            a_, kw = rng.calls[0][1], rng.calls[0][2]
+            loc = kw.get("loc", a_[0] if len(a_) > 0 else 0.0)
+            scale = kw.get("scale", a_[1] if len(a_) > 1 else 1.0)
+            if numpy.array_equal(numpy.asarray(loc, dtype=float).reshape(-1, 1), mu) and numpy.array_equal(numpy.asarray(scale, dtype=float).reshape(-1, 1), b):
+                want = rng.calls[0][3]
+            elif numpy.all(numpy.asarray(loc, dtype=float) == 0.0) and numpy.all(numpy.asarray(scale, dtype=float) == 1.0):
+                want = mu + b * numpy.asarray(rng.calls[0][3]).reshape(d, -1)        # the same law from standard Laplace draws
+            else:
+                out.append(("generate-parameters", f"Laplace.generate draws laplace(loc={loc}, scale={scale}) for means {col(mu)}, dispersions {col(b)}"))
     elif kind == "uniform":
         lo = distgen.col([distgen.dy(rnd, -4, -1) for _ in range(d)])
         hi = distgen.col([distgen.dy(rnd, 1, 4) for _ in range(d)])
@@ -228,10 +239,8 @@ def generate_case(rnd, D, k):
             if unexplained or got != wantc:
                 out.append(("generate-not-pushforward-mixture", f"Mixture(weights {weights}).generate({repeat}): the generator picked components {idx} (counts {wantc}), "
                             f"the returned columns come from components with counts {got} ({unexplained} columns from no component)"))
-        if not any(c[0] in ("choice", "random", "uniform") for c in rng.calls):
-            out.append(("rng-ignored-Mixture", "Mixture.generate(rng=...) does not draw the component choice from the generator it is given"))
-        if not any(c[0] == "normal" for c in rng.calls):
-            out.append(("rng-ignored-Mixture", "Mixture.generate(rng=...) does not draw the component samples from the generator it is given"))
+        if not rng.calls:
+            out.append(("rng-ignored-Mixture", "Mixture.generate(rng=...) does not draw from the generator it is given"))
     else:
         inner = D.Normal(mu.copy(), distgen.col([distgen.pos(rnd) for _ in range(d)]))
         base = rnd.choice([10.0, 2.0, 3.0])
@@ -243,8 +252,11 @@ def generate_case(rnd, D, k):
     if s.shape != (d, repeat):
         out.append((f"generate-shape-{kind}", f"{type(obj).__name__}.generate({repeat}) has shape {s.shape}, expected {(d, repeat)}"))
     if want is None and not out:
-        out.append((f"rng-ignored-{type(obj).__name__}-{kind}", f"{type(obj).__name__}.generate(rng=<generator>) did not request its draws from that generator "
-                    f"(calls: {[c[0] for c in rng.calls]})"))
+        if not rng.calls:
+            out.append((f"rng-ignored-{type(obj).__name__}-{kind}", f"{type(obj).__name__}.generate(rng=<generator>) did not request its draws from that generator"))
+        else:
+            # the generator was used, but through primitives the tie has no image formula for: a broken tie, not a shown violation
+            out.append((f"generate-form-not-modelled-{kind}", f"{type(obj).__name__}.generate draws with {[c[0] for c in rng.calls]}; the correspondence knows no image formula for that"))
     elif want is not None and not isinstance(want, str) and s.shape == numpy.asarray(want).shape and not numpy.allclose(s, want, rtol=1e-12, atol=1e-12):
         out.append((f"generate-not-pushforward-{kind}", f"{type(obj).__name__}.generate is not the documented image of the generator's draws"))
     # deterministic function of the generator
@@ -304,7 +316,7 @@ def run(tier, seed):
         dist["generate_cases"] += 1
         dist["generate_kinds"][kind] = dist["generate_kinds"].get(kind, 0) + 1
         for key, what in probs:
-            violations.append(Violation(key, what, {"generate_case": k, "kind": kind}))
+            violations.append(Violation(key, what, {"generate_case": k, "kind": kind, "no_failing_input_found": key.startswith("generate-form-not-modelled")}))
     for k in range(6 if tier == "quick" else 60):
         dist["moment_cases"] += 1
         for key, what in moment_case(rnd, D, k):
